@@ -12,11 +12,26 @@ Outcomes: a value and the new cursor, a located read error, or *undefined behavi
 -/
 namespace MpVerif.C02
 
+/-- what `NLStringRef(buffer, size)` gives the reader: byte access `rd` (offsets from `start_`), the
+    size `len` (`end_ - start_`), and the contract of `NLStringRef`: the buffer is NUL-terminated at `len`
+    (the model takes every offset from `len` on to read as NUL; `C02_no_ub` shows they are never read) -/
 structure Inp where
-  data : ByteArray
+  rd : Nat → UInt8
+  len : Nat
+  nul : ∀ p, len ≤ p → rd p = 0
 
-def Inp.len (i : Inp) : Nat := i.data.size
-def Inp.rd (i : Inp) (p : Nat) : UInt8 := if h : p < i.data.size then i.data[p] else 0
+/-- bytes held in an array `buf`, of which the first `size` are the string; reading beyond the array gives 0 -/
+def bufRd (buf : Array UInt8) (p : Nat) : UInt8 := if h : p < buf.size then buf[p] else 0
+
+/-- `NLStringRef(s)` for a `std::string` / a NUL-terminated copy of the bytes `d` -/
+def Inp.ofBytes (d : ByteArray) : Inp :=
+  ⟨bufRd d.data, d.size, by
+    intro p hp
+    unfold bufRd
+    have hsz : d.data.size = d.size := rfl
+    split
+    · omega
+    · rfl⟩
 
 structure RState where
   pos : Nat
